@@ -153,6 +153,24 @@ def run_case(case):
             er.min(), er.max()), wit, mech="eig-range", obs=obs)
     if not np.array_equal(ksp, ksp0):
         return violated(sig, "k-space argument modified", wit, mech="mutated")
+    # boundary of the crop rule: re-run with crop exactly equal to one voxel's eigenvalue
+    # (the computation is deterministic): that voxel must now be zero ("does not exceed")
+    if (~zero).any() and case["eseed"] % 3 == 0:
+        cand = np.argwhere(~zero)
+        k = tuple(cand[case["eseed"] % len(cand)])
+        e_star = float(er[k])
+        mps2, eig2 = mr.app.EspiritCalib(ksp, calib_width=case["cw"], thresh=case["thresh"],
+                                         kernel_width=case["kw"], crop=e_star,
+                                         output_eigenvalue=True, show_pbar=False).run()
+        eig2 = eig2[0] if eig2.ndim == nd + 1 else eig2
+        checks += 1
+        if float(np.real(eig2[k])) == e_star and np.any(mps2[(slice(None),) + k] != 0):
+            return violated(sig, "voxel %s has eigenvalue exactly equal to crop = %.17g but its "
+                            "map is not zero" % (k, e_star), wit, mech="crop-boundary")
+        nz2 = np.sqrt(np.sum(np.abs(mps2) ** 2, axis=0)) == 0
+        if not np.array_equal(nz2, np.real(eig2) <= e_star):
+            return violated(sig, "crop = %.17g: zero pattern does not match eigenvalue <= crop"
+                            % e_star, wit, mech="crop")
     nrows = (case["cw"] - case["kw"] + 1) ** nd
     ncols = nc * case["kw"] ** nd
     sigdim = (case["kw"] + 2) ** nd
